@@ -70,6 +70,10 @@ CLAIMS = {
             "key/index, labels): to_part_specs either raises or yields structurally pure JSON specs whose rebuilt path selects the "
             "same nodes (by identity) with the same concrete paths for every value of the symbolic atoms and leaves, and equals the "
             "original when that was built from specs; path specs with modifiers (to_spec) likewise", "3 C12"),
+    "C13": ("for each schema of 1-3 rules (C11-fragment conditions, C12-serialisable paths, with/without casts): serialised form "
+            "structurally pure JSON, rebuilt schema and rules equal the originals and give the same validity, failure paths, tested "
+            "count and cast data for every value of the symbolic atoms and non-castable leaves; real JSON text on each witness",
+            "3 C13"),
     "C14": ("equality laws (reflexive/symmetric/transitive, rebuilt and commuted copies equal) and 'equal implies same "
             "behaviour' decided for every value of the differing atom (key, index, argument, label) and of the probe "
             "document's leaves, per term kind", "3 C14"),
